@@ -202,7 +202,7 @@ func matchingOpen(s string, cl int) int {
 const gotypeBudget = 120000
 
 func c09(c *wk.Ctx) {
-	c.Note("rule", "streams: grammar = signatures printed by the reference generator (all scalar kinds, m o X v, lists, maps, tuples, structs incl. template-style names; depth <= 6/8, width <= 6/10): Parse must succeed, Signature() must equal the input, SignatureIDL() the reference IDL name, Type() the structure (first 120k cases; maps with non-comparable Go keys excluded from Type() only); mutant = one or two character edits of a valid signature, or (a quarter) a struct definition whose member names and member types disagree in number; random = random strings over the signature alphabet, raw bytes and deep nestings (<= 64 KiB): error, or an accepted input whose print re-parses and prints the same. Distinct non-trivial = distinct signatures (grammar) / distinct inputs that are accepted or are single-edit neighbours of a valid one.")
+	c.Note("rule", "streams: grammar = signatures printed by the reference generator (all scalar kinds, m o X v, lists, maps, tuples, structs incl. template-style names; depth <= 6/8, width <= 6/10): Parse must succeed, Signature() must equal the input, SignatureIDL() the reference IDL name, a second Parse of the same string after the first result was registered into a type set prints the same, Type() the structure (first 120k cases; maps with non-comparable Go keys excluded from Type() only); mutant = one or two character edits of a valid signature, or (a quarter) a struct definition whose member names and member types disagree in number; random = random strings over the signature alphabet, raw bytes and deep nestings (<= 64 KiB): error, or an accepted input whose print re-parses and prints the same. Distinct non-trivial = distinct signatures (grammar) / distinct inputs that are accepted or are single-edit neighbours of a valid one.")
 	depth, width := c.Pick(6, 8), c.Pick(6, 10)
 	c.Cases("grammar", c.Pick(40000, 400000), func(i int, rng *rand.Rand) {
 		t := rc.GenType(rng, rc.GenOpts{Depth: 2 + rng.Intn(depth-1), Width: 1 + rng.Intn(width), Scalars: c09Scalars, TemplateNames: true, ComparableKeys: i%2 == 0})
@@ -241,6 +241,30 @@ func c09(c *wk.Ctx) {
 			c.Count("gotype_checked", 1)
 		}
 		fixedPoint(c, "grammar", i, in)
+		// what the generators do with a parsed type (registration into a type set, which resolves name
+		// collisions) must not change what parsing the same string gives afterwards
+		if i%4 == 0 {
+			var p3 string
+			pv, stack := wk.Try(func() {
+				set := signature.NewTypeSet()
+				ty.RegisterTo(set)
+				ty3, err := signature.Parse(in)
+				if err != nil {
+					p3 = "error: " + err.Error()
+				} else {
+					p3 = ty3.Signature()
+				}
+			})
+			if pv != nil {
+				c.Viol("grammar", i, "register=panic/"+wk.PanicSite(stack), fmt.Sprintf("registering a parsed type panicked: %v", pv), map[string]interface{}{"input": clip(in)})
+				return
+			}
+			if p3 != in {
+				c.Viol("grammar", i, "grammar=print-after-registration", "after the parsed type was registered into a type set, parsing the same signature again prints differently", map[string]interface{}{"input": clip(in), "printed": clip(p3)})
+				return
+			}
+			c.Count("reparsed_after_registration", 1)
+		}
 		c.Nontrivial(wk.Hash64("grammar", in))
 		if c.WantSample() && i%500 == 0 {
 			c.Sample(map[string]interface{}{"stream": "grammar", "signature": in})
